@@ -5,7 +5,6 @@ import (
 	"context"
 	"encoding/binary"
 	"fmt"
-	"os"
 	"runtime"
 	"sort"
 	"strconv"
@@ -157,10 +156,10 @@ func (dlEngine) Generate(prop string, r *simrt.RNG, tier string, run int) *simrt
 	return sc
 }
 
-// skipKnown (debug aid, VERIF_NETSIM_SKIP_KNOWN=1): do not report the three
-// violation shapes that the unchanged tree is known to produce, to see what else
-// there is. Never set by the supervisor.
-var skipKnown = os.Getenv("VERIF_NETSIM_SKIP_KNOWN") == "1"
+// skipKnown was a development aid (hide the shapes the unchanged tree produced
+// before they were fixed); it is permanently off: nothing is ever suppressed
+// inside an engine.
+const skipKnown = false
 
 func (e dlEngine) Execute(t *testing.T, ctx *simrt.Ctx) *simrt.Violation {
 	defer crashExit()()
